@@ -215,15 +215,15 @@ vertical piece `q` of the final segment list (one planar-graph edge each) cross 
 of `q`).  Proof: every final piece lies inside one original segment (`piece_within`), a crossing of two pieces would
 satisfy the sweep condition, so by completeness a crossing node sits there — but no crossing node lies strictly
 inside a piece (invariant `Pc.ni`, kept by every cut).
-`_partial` with respect to the brief's `planarise_no_crossing` only in that the overlap-removal stage is not composed
-in: the statement is about `removeEdgeCrossings` on ANY segment list satisfying `Good`. -/
-theorem planarise_no_crossing_partial (S : List Seg) (nextId : Nat) (hG : Good S) :
+This is the statement for `removeEdgeCrossings` on ANY segment list satisfying `Good`; the whole pipeline is
+`planarise_no_crossing` (section 6) and `planarise_no_crossing_of_input` (section 7). -/
+theorem sweep_no_crossing (S : List Seg) (nextId : Nat) (hG : Good S) :
     ∀ p ∈ (computeCrossings S nextId).segs, ∀ q ∈ (computeCrossings S nextId).segs, ¬ PiecesCross p q :=
   no_pieces_cross hG nextId
 
 /-- every edge of the result is a sub-segment of one input segment (so parallel pieces can only touch or overlap
 where the input segments did: never, by `Good`, except at shared ends) -/
-theorem planarise_pieces_within (S : List Seg) (nextId : Nat) (hG : Good S) :
+theorem sweep_pieces_within (S : List Seg) (nextId : Nat) (hG : Good S) :
     ∀ t ∈ (computeCrossings S nextId).segs, ∃ s ∈ S,
       (s.ori = .H ∧ t.on.p.y = s.cc ∧ t.cn.p.y = s.cc ∧ s.lo ≤ t.on.p.x ∧ t.on.p.x ≤ s.hi ∧ s.lo ≤ t.cn.p.x ∧ t.cn.p.x ≤ s.hi) ∨
       (s.ori = .V ∧ t.on.p.x = s.cc ∧ t.cn.p.x = s.cc ∧ s.lo ≤ t.on.p.y ∧ t.on.p.y ≤ s.hi ∧ s.lo ≤ t.cn.p.y ∧ t.cn.p.y ≤ s.hi) := by
